@@ -149,6 +149,7 @@ def run_job(job: dict) -> dict:
                     full = dict(entry["kwargs"]); full.update(t0["cfg"]); o.set_config_parameters(full)
             if job.get("first_cfg") is not None:
                 full = dict(entry["kwargs"]); full.update(job.get("cfg", {})); o.set_config_parameters(full); cfg = o.configuration
+            if snaps is not None: del snaps[:]                # snapshots of earlier runs on this instance do not count
             res = o.optimize(task, **kw)
         obs["ok"] = True
         obs["evolution"] = [[(a.position, a.cost, a.fitness) for a in p.agents] for p in res.evolution]
